@@ -137,7 +137,8 @@ Fixpoint get_transformers (fm : list (str * colmeta)) : list (str * xform) * lis
 Definition subst_hash (tmpl x : str) : str :=
   flat_map (fun c => if N.eqb c ch_hash then x else [c]) tmpl.
 
-(* ColumnMapper._value_handler; repaired (fixed = true): an empty cell is skipped too *)
+(* ColumnMapper._value_handler.  fixed = true: the code as it is since fix commit a2f08b3 (an
+   empty cell is skipped too); fixed = false: the behaviour before that commit. *)
 Definition value_handler (fixed : bool) (tmpl x : str) : str :=
   if str_eqb x ch_na || (fixed && is_empty x) then ch_na else subst_hash tmpl x.
 
